@@ -38,6 +38,8 @@ def do_replay(mod, path):
 
 def regress_cases(pid):
     d = common.VERIF / 'replays' / 'regress' / pid
+    if os.environ.get('VERIF_NO_REGRESS') == '1':  # sensitivity experiments: measure the generated search alone
+        return []
     return sorted(d.glob('*.json')) if d.is_dir() else []
 
 
